@@ -2,12 +2,19 @@
 from __future__ import annotations
 from typing import Optional, Sequence, Tuple, Union
 
+import numpy
 import numpy.typing
 
 import numpoly
 
 from . import clean
 from ..baseclass import ndpoly
+
+# coefficient types the compiled helpers in numpoly.cfunctions can write
+CFUNCTION_DTYPES = tuple(
+    numpy.dtype(dtype_)
+    for dtype_ in ("bool", "uint32", "int64", "float64", "complex128")
+)
 
 
 def polynomial_from_attributes(
@@ -77,7 +84,9 @@ def polynomial_from_attributes(
         retain_names=retain_names,
     )
     if coefficients:
-        dtype = coefficients[0].dtype if dtype is None else dtype
+        if dtype is None:
+            dtype = numpy.result_type(*[coeff.dtype for coeff in coefficients])
+        coefficients = [numpy.asarray(coeff, dtype=dtype) for coeff in coefficients]
         shape = coefficients[0].shape
     else:
         dtype = dtype if dtype else int
@@ -91,10 +100,10 @@ def polynomial_from_attributes(
         allocation=allocation,
     )
 
-    if coefficients:
+    if coefficients and numpy.dtype(dtype) in CFUNCTION_DTYPES:
         numpoly.cfrom_attributes(coefficients, poly.values.ravel())
-
-    # for key, values in zip(poly.keys, coefficients):
-    #    poly.values[key] = values
+    else:
+        for key, values in zip(poly.keys, coefficients):
+            poly.values[key] = values
 
     return poly
